@@ -474,7 +474,10 @@ fn stream_random(driver: &Driver, name: &str, seed: u64, from: u64, to: u64, cyc
     for case in from..to {
         let mut rng = Rng::derive(seed, name, case);
         let odd = !cyclic || rng.chance(1, 2);
-        let d = gen_doc(&mut rng, &GenOpts { cyclic, odd_parents: odd, objstms: true });
+        let mut d = gen_doc(&mut rng, &GenOpts { cyclic, odd_parents: odd, objstms: true });
+        if cyclic && rng.chance(5, 6) {
+            d.tolerant = true; // in strict mode a cyclic page tree does not even open
+        }
         if cyclic && d.acyclic() {
             st.count("skipped=no-inner-node");
             continue;
@@ -597,8 +600,8 @@ fn oracle_corpus(seed: u64, thorough: bool, only: Option<(&str, u64)>) -> Oracle
             Ok(f) => (f.trailer.size.max(1) as u64, f.num_pages()),
             Err(_) => { or.count(&format!("unreadable={}", name)); continue; }
         };
-        let n_obj = if thorough { 40 } else { 6 };
-        let n_seq = if thorough { 60 } else { 8 };
+        let n_obj = if thorough { 40 } else { 10 };
+        let n_seq = if thorough { 60 } else { 20 };
         for case in 0..(n_obj + n_seq) {
             if let Some((f, c)) = only {
                 if f != name || c != case { continue; }
@@ -607,7 +610,12 @@ fn oracle_corpus(seed: u64, thorough: bool, only: Option<(&str, u64)>) -> Oracle
             let tolerant = rng.chance(1, 3);
             let histories: Vec<Vec<Call>> = if case < n_obj {
                 let id = 1 + rng.below(size);
-                let t1 = *rng.pick(&CORPUS_TYPES);
+                // a type the object really loads as (probed without caches), and a second one
+                let probe: Vec<Call> = CORPUS_TYPES.iter().filter(|&&t| t != T_PRIM).map(|&t| Call::Get(t, id)).collect();
+                let loads = run_config(0, &bytes, tolerant, &probe, Mode::Debug, true, None).calls;
+                let fits: Vec<u8> = probe.iter().zip(loads.iter()).filter(|(_, a)| a.starts_with("ok")).map(|(c, _)| if let Call::Get(t, _) = c { *t } else { 0 }).collect();
+                let t1 = if fits.is_empty() { *rng.pick(&CORPUS_TYPES) } else { *rng.pick(&fits) };
+                or.count(if fits.is_empty() { "object-loads-as=nothing-typed" } else { "object-loads-as=some-type" });
                 let mut t2 = *rng.pick(&CORPUS_TYPES);
                 while t2 == t1 { t2 = *rng.pick(&CORPUS_TYPES); }
                 let kinds = vec![Call::Resolve(id), Call::Get(t1, id), Call::Get(t2, id), Call::SData(id), if rng.chance(1, 2) { Call::RawImg(id) } else { Call::ImgData(id) }];
@@ -671,13 +679,13 @@ pub fn run(driver: &Driver, seed: u64, thorough: bool, replay: Option<&serde_jso
     let mut wor = Oracle::new("c12.witness");
     rep.streams.push(stream_witness(driver, &mut wor));
     rep.oracles.push(wor);
-    rep.streams.push(stream_orders(driver, seed, 0, if thorough { 150 } else { 10 }, &mut or));
-    rep.streams.push(stream_random(driver, "c12.random", seed, 0, if thorough { 20_000 } else { 700 }, false, &mut or));
+    rep.streams.push(stream_orders(driver, seed, 0, if thorough { 150 } else { 30 }, &mut or));
+    rep.streams.push(stream_random(driver, "c12.random", seed, 0, if thorough { 20_000 } else { 2500 }, false, &mut or));
     let mut cor = Oracle::new("c12.uncached-cyclic");
-    rep.streams.push(stream_random(driver, "c12.cyclic", seed, 0, if thorough { 4000 } else { 200 }, true, &mut cor));
+    rep.streams.push(stream_random(driver, "c12.cyclic", seed, 0, if thorough { 4000 } else { 500 }, true, &mut cor));
     rep.oracles.push(or);
     rep.oracles.push(cor);
-    rep.oracles.push(oracle_prefix(seed, if thorough { 10_000 } else { 400 }));
+    rep.oracles.push(oracle_prefix(seed, if thorough { 10_000 } else { 1500 }));
     rep.oracles.push(oracle_corpus(seed, thorough, None));
     rep
 }
